@@ -573,6 +573,16 @@ func (h *hist) reopen() error {
 	return h.record(fmt.Sprintf("HReopen %s %s %s", iw, hw, List(order)), "R("+strings.Trim(strings.Fields(iw)[0], "(")+","+hw+")")
 }
 
+// genFail: the generator could not even list the unspents through the API: observe
+// everything once more (the failing views are recorded) and end the history
+func (h *hist) genFail(err error) error {
+	h.dist.Add("api_failed_in_generator")
+	if e := h.record("HPool", fmt.Sprintf("API-FAILED(%v)", err)); e != nil {
+		return e
+	}
+	return errReopen
+}
+
 var errReopen = fmt.Errorf("the node failed (recorded as an observation); history ends")
 
 func (h *hist) poolInputs() (map[cipher.SHA256]bool, error) {
@@ -643,7 +653,7 @@ func (h *hist) oneHistory(nblocks int) error {
 			for i := 0; i < nt; i++ {
 				t, ins, ok, err := h.n.RandomSpend(r, used)
 				if err != nil {
-					return err
+					return h.genFail(err)
 				}
 				if !ok {
 					break
@@ -670,7 +680,7 @@ func (h *hist) oneHistory(nblocks int) error {
 			}
 			t, _, ok, err := h.n.RandomSpend(r, used)
 			if err != nil {
-				return err
+				return h.genFail(err)
 			}
 			if !ok {
 				continue
